@@ -715,8 +715,7 @@ def faults_ext(model, want=lambda *a: True):
                         for bad in bad_literals(u):
                             if bad is None and nullable:
                                 continue
-                            if bad is None and not required:
-                                continue          # `k = null` for a defaulted attribute: unspecified
+                            # `k = null` for a defaulted, non-nullable attribute: null is not a value of the declared type
                             attrs = tuple(kv for kv in d.attrs if kv[0] != f.name) + ((f.name, bad),)
                             yield ('attr-fits-type', 'attrs/%s%s' % (u.kind, '?' if nullable else ''), site + '.%s=%r' % (f.name, bad),
                                    _put_def(model, ns_name, fi, di, d._replace(attrs=attrs)))
